@@ -495,6 +495,11 @@ fn prim_reduce<P: Prim>(s: &Section, ty: &str, wrap: &str, n: usize, f: &dyn Fn(
     }
     // mixed non-zero values, one zero
     for j in 0..n { let mut v: Vec<P> = (0..n).map(|i| nzs[i % nzs.len()]).collect(); one(&v, 1); v[j] = zs[j % zs.len()]; one(&v, 2); }
+    // thorough: two deviating lanes (two different non-zero values among zeros, two zeros among mixed non-zero values) at every pair of positions
+    if s.thorough() { for j in 0..n { for k in j + 1..n {
+        let mut hot = vec![zs[(j + k) % zs.len()]; n]; hot[j] = nzs[j % nzs.len()]; hot[k] = nzs[(k + 1) % nzs.len()]; one(&hot, 3);
+        let mut cold: Vec<P> = (0..n).map(|i| nzs[i % nzs.len()]).collect(); cold[j] = zs[j % zs.len()]; cold[k] = zs[k % zs.len()]; one(&cold, 3);
+    } } }
     s.class_n(ty, count);
     s.class_n(&format!("{}{}", wrap, P::NAME), count);
 }
@@ -528,7 +533,8 @@ fn order_i32(s: &Section, ty: &str, n: usize, sel: &dyn Fn(&[i32], &[i32], i32) 
     let alpha: Vec<i32> = if s.thorough() { vec![i32::MIN, -2, 0, 3, i32::MAX] } else { vec![-2, 0, 3] };
     let pairs: Vec<(i32, i32)> = alpha.iter().flat_map(|&x| alpha.iter().map(move |&y| (x, y))).collect();
     let mut count = 0u64;
-    for r in 0..pairs.len() { for k in [1usize, 2, 5] {
+    let strides: &[usize] = if s.thorough() { &[1, 2, 3, 5, 7, 11] } else { &[1, 2, 5] };
+    for r in 0..pairs.len() { for &k in strides {
         let a: Vec<i32> = (0..n).map(|i| pairs[(r + i * k) % pairs.len()].0).collect();
         let b: Vec<i32> = (0..n).map(|i| pairs[(r + i * k) % pairs.len()].1).collect();
         let t = alpha[r % alpha.len()];
@@ -558,7 +564,8 @@ fn order_f64(s: &Section, ty: &str, n: usize, sel: &dyn Fn(&[f64], &[f64]) -> [V
     let alpha = [-1.0f64, -0.0, 0.0, 1.0, f64::INFINITY, f64::NAN];
     let pairs: Vec<(f64, f64)> = alpha.iter().flat_map(|&x| alpha.iter().map(move |&y| (x, y))).collect();
     let mut count = 0u64;
-    for r in 0..pairs.len() { for k in [1usize, 5, 7] {
+    let strides: &[usize] = if s.thorough() { &[1, 2, 3, 5, 7, 11, 13] } else { &[1, 5, 7] };
+    for r in 0..pairs.len() { for &k in strides {
         let a: Vec<f64> = (0..n).map(|i| pairs[(r + i * k) % pairs.len()].0).collect();
         let b: Vec<f64> = (0..n).map(|i| pairs[(r + i * k) % pairs.len()].1).collect();
         let inp = || json!({"a": bitsv(&a), "b": bitsv(&b)});
@@ -699,6 +706,424 @@ macro_rules! float_ty { ($s:expr, $V:ident, $name:literal, $N:expr, $kind:ident,
     run($s);
 }} }
 
+
+// ================================================================================================
+// AUDIT ROUND: sections added after the clause-by-clause audit (see out/AUDIT.md)
+// ================================================================================================
+
+/// lane patterns over an alphabet: every rotation r of the alphabet laid out with every stride k of `ks`
+/// (lane i = alpha[(r + i*k) mod |alpha|]), plus every alphabet value alone at every single lane over `fill`
+fn lane_patterns<P: Copy>(alpha: &[P], fill: P, n: usize, ks: &[usize]) -> Vec<Vec<P>> {
+    let l = alpha.len();
+    let mut out = Vec::new();
+    for &k in ks { for r in 0..l { out.push((0..n).map(|i| alpha[(r + i * k) % l]).collect()); } }
+    for &x in alpha { for j in 0..n { let mut v = vec![fill; n]; v[j] = x; out.push(v); } }
+    out
+}
+/// calls `f` on every subset of 0..n with at most k members (sorted index lists, the empty set included)
+fn for_subsets(n: usize, k: usize, f: &mut dyn FnMut(&[usize])) {
+    fn go(n: usize, k: usize, start: usize, cur: &mut Vec<usize>, f: &mut dyn FnMut(&[usize])) {
+        f(cur);
+        if cur.len() == k { return; }
+        for i in start..n { cur.push(i); go(n, k, i + 1, cur, f); cur.pop(); }
+    }
+    go(n, k, 0, &mut Vec::new(), f);
+}
+
+// ------------------------------------------------------------------------------------------------
+// 7. casts: as_ and numcast
+// ------------------------------------------------------------------------------------------------
+const CAST_F64: [f64; 15] = [-2.75, -0.0, 0.5, 3.99, 255.5, 65536.0, -1.0, 2147483647.0, 2147483648.0, -2147483649.0, 1e10, -1e10, f64::NAN, f64::INFINITY, f64::NEG_INFINITY];
+const CAST_I32: [i32; 12] = [0, 1, 255, 256, 257, -1, -256, 1000, i32::MIN, i32::MAX, 128, 77];
+const CAST_I64: [i64; 8] = [0, 1, -1, 16777217, -16777217, i64::MAX, i64::MIN, 123456789012];
+/// `as_` (lane i = lane_i as D) and `numcast` (Some(lanes converted) iff every lane converts, else None)
+#[inline(never)]
+fn cast_check<S: Copy + Debug + PartialEq, D: Copy + Debug + PartialEq>(s: &Section, ty: &str, n: usize, sn: &str, dn: &str, alpha: &[S], fill: S,
+    ref_as: &dyn Fn(S) -> D, ref_num: &dyn Fn(S) -> Option<D>, real_as: &dyn Fn(&[S]) -> Vec<D>, real_num: &dyn Fn(&[S]) -> Option<Vec<D>>) {
+    let ks: &[usize] = if s.thorough() { &[1, 2, 3, 5, 7, 11] } else { &[1, 3] };
+    let (site_as, site_num) = (format!("{} as_<{}->{}>", ty, sn, dn), format!("{} numcast<{}->{}>", ty, sn, dn));
+    assert!(ref_num(fill).is_some(), "cast_check: the fill value must convert");
+    let mut pats = lane_patterns(alpha, fill, n, ks);
+    let valid: Vec<S> = alpha.iter().copied().filter(|&x| ref_num(x).is_some()).collect();
+    for &k in ks { for r in 0..valid.len() { pats.push((0..n).map(|i| valid[(r + i * k) % valid.len()]).collect()); } }
+    let (mut count, mut some, mut none, mut none1) = (0u64, 0u64, 0u64, 0u64);
+    for x in pats.iter() {
+        let pi = x.iter().filter(|&&v| v != fill).count();   // weight: lanes differing from the fill, so single-lane witnesses are reported first
+        let want: Vec<D> = x.iter().map(|&v| ref_as(v)).collect();
+        s.eval(want.iter().any(|w| *w != want[0])); count += 1;
+        match catch(|| real_as(x)) {
+            Ok(g) => if g != want { let lane = (0..n).find(|&i| g.get(i) != Some(&want[i])).unwrap_or(n);
+                s.violation_w(&site_as, "wrong-lane", json!({"lanes": jd(x), "lane": lane, "got": jd(&g), "want": jd(&want)}), pi as u64); },
+            Err(e) => s.violation_w(&site_as, "panic", json!({"lanes": jd(x), "error": jd(&e)}), pi as u64),
+        }
+        let conv: Vec<Option<D>> = x.iter().map(|&v| ref_num(v)).collect();
+        let bad = conv.iter().filter(|c| c.is_none()).count();
+        let want_n: Option<Vec<D>> = if bad == 0 { Some(conv.iter().map(|c| c.unwrap()).collect()) } else { None };
+        s.eval(bad > 0 && bad < n); count += 1;
+        if bad == 0 { some += 1 } else { none += 1; if bad == 1 { none1 += 1 } }
+        match catch(|| real_num(x)) {
+            Ok(g) => if g != want_n { s.violation_w(&site_num, if g.is_some() != want_n.is_some() { "wrong-option" } else { "wrong-lane" }, json!({"lanes": jd(x), "got": jd(&g), "want": jd(&want_n)}), pi as u64); },
+            Err(e) => s.violation_w(&site_num, "panic", json!({"lanes": jd(x), "error": jd(&e)}), pi as u64),
+        }
+    }
+    s.class_n(ty, count); s.class_n("numcast-some", some); s.class_n("numcast-none", none); s.class_n("numcast-none-single-lane", none1);
+}
+macro_rules! cast_ty { ($s:expr, $V:ident, $name:literal, $N:expr, $kind:ident, [$($i:tt)+]) => {{
+    #[inline(never)]
+    fn run(s: &Section) {
+        use num_traits::NumCast;
+        cast_check::<f64, i32>(s, $name, $N, "f64", "i32", &CAST_F64, 1.0, &|x| x as i32, &|x| <i32 as NumCast>::from(x),
+            &|l| <$V<f64>>::mk(l).as_::<i32>().de(), &|l| <$V<f64>>::mk(l).numcast::<i32>().map(|v| v.de()));
+        cast_check::<i32, u8>(s, $name, $N, "i32", "u8", &CAST_I32, 7, &|x| x as u8, &|x| <u8 as NumCast>::from(x),
+            &|l| <$V<i32>>::mk(l).as_::<u8>().de(), &|l| <$V<i32>>::mk(l).numcast::<u8>().map(|v| v.de()));
+        cast_check::<i64, f32>(s, $name, $N, "i64", "f32", &CAST_I64, 3, &|x| x as f32, &|x| <f32 as NumCast>::from(x),
+            &|l| <$V<i64>>::mk(l).as_::<f32>().de(), &|l| <$V<i64>>::mk(l).numcast::<f32>().map(|v| v.de()));
+        if s.wants_sample() { let l: Vec<i32> = (0..$N).map(|i| if i == $N - 1 { 256 } else { i as i32 - 1 }).collect();
+            s.sample(json!({"type": $name, "lanes": l, "as_::<u8>": <$V<i32>>::mk(&l).as_::<u8>().de(), "numcast::<u8>": jd(&<$V<i32>>::mk(&l).numcast::<u8>().map(|v| v.de()))})); }
+    }
+    run($s);
+}} }
+
+// ------------------------------------------------------------------------------------------------
+// 8. bool reductions incl. the deprecated reduce_ne, deeper deviation sets
+// ------------------------------------------------------------------------------------------------
+#[inline(never)]
+fn bool_reduce3(s: &Section, ty: &str, n: usize, f: &dyn Fn(&[bool]) -> (bool, bool, bool)) {
+    let sites = [format!("{} reduce_and<bool>", ty), format!("{} reduce_or<bool>", ty), format!("{} reduce_ne<bool>", ty)];
+    let mut count = 0u64;
+    let mut one = |v: &[bool], weight: u64| {
+        count += 3;
+        let mixed = v.iter().any(|&b| b) && v.iter().any(|&b| !b);
+        s.evals(3, if mixed { 3 } else { 0 });
+        // textbook chain ((v0 != v1) != v2) != ... : left fold of `!=`
+        let want = [v.iter().all(|&b| b), v.iter().any(|&b| b), v[1..].iter().fold(v[0], |acc, &b| acc != b)];
+        match catch(|| f(v)) {
+            Ok((a, o, x)) => for (k, g) in [a, o, x].into_iter().enumerate() {
+                if g != want[k] { s.violation_w(&sites[k], "wrong-value", json!({"lanes": v, "got": g, "want": want[k]}), weight); } },
+            Err(e) => s.violation(&sites[2], "panic", json!({"lanes": v, "error": jd(&e)})),
+        }
+    };
+    if n <= 16 {
+        for m in 0u32..(1 << n) { let v: Vec<bool> = (0..n).map(|i| m >> i & 1 == 1).collect(); one(&v, m.count_ones().min(n as u32 - m.count_ones()) as u64); }
+    } else {
+        let dev = if s.thorough() { 4 } else { 2 };
+        for base in [true, false] { for_subsets(n, dev, &mut |set| { let mut v = vec![base; n]; for &j in set { v[j] = !base; } one(&v, set.len() as u64); }); }
+    }
+    s.class_n(ty, count);
+}
+macro_rules! boolred3_ty { ($s:expr, $V:ident, $name:literal, $N:expr, $kind:ident, [$($i:tt)+]) => {{
+    #[inline(never)]
+    #[allow(deprecated)]
+    fn run(s: &Section) {
+        bool_reduce3(s, $name, $N, &|l| { let v = <$V<bool>>::mk(l); (v.reduce_and(), v.reduce_or(), v.reduce_ne()) });
+        if s.wants_sample() { let l: Vec<bool> = (0..$N).map(|i| i % 3 == 0).collect(); s.sample(json!({"type": $name, "lanes": l, "reduce_ne": <$V<bool>>::mk(&l).reduce_ne()})); }
+    }
+    run($s);
+}} }
+
+// ------------------------------------------------------------------------------------------------
+// 9. new, consuming iterator used from both ends, mutable iteration
+// ------------------------------------------------------------------------------------------------
+type IterTrace = (Vec<Option<Term>>, Vec<usize>, (Option<Term>, Option<Term>, usize));
+/// `pat[i]` = true: i-th element is taken with next(), false: with next_back(). Model: a deque over the lanes.
+#[inline(never)]
+fn iter_seq(s: &Section, ty: &str, ta: &[Term], pat: &[bool], got: Result<IterTrace, Caught>) {
+    s.eval(pat.iter().any(|&b| b) && pat.iter().any(|&b| !b));
+    let n = ta.len();
+    let (mut lo, mut hi) = (0usize, n);
+    let mut want = Vec::new(); let mut lens = vec![n];
+    for &front in pat { if lo == hi { want.push(None); } else if front { want.push(Some(ta[lo])); lo += 1; } else { hi -= 1; want.push(Some(ta[hi])); } lens.push(hi - lo); }
+    let fronts = pat.iter().filter(|&&b| b).count() as u64;
+    let input = || json!({"lanes": jd(&ta), "pattern (true = next, false = next_back)": pat});
+    match got {
+        Ok((g, l, tail)) => {
+            if g != want { s.violation_w(&format!("{} IntoIter next/next_back sequence", ty), "wrong-element", json!({"input": input(), "got": jd(&g), "want": jd(&want)}), fronts.min(pat.len() as u64 - fronts)); }
+            if l != lens { s.violation_w(&format!("{} IntoIter len", ty), "wrong-length", json!({"input": input(), "got": l, "want": lens}), fronts.min(pat.len() as u64 - fronts)); }
+            if pat.len() == n && (tail.0.is_some() || tail.1.is_some() || tail.2 != 0) { s.violation(&format!("{} IntoIter next/next_back sequence", ty), "yields-after-exhaustion", json!({"input": input(), "next": jd(&tail.0), "next_back": jd(&tail.1), "len": tail.2})); }
+        }
+        Err(Caught::Unmodelled(w)) => s.unmodelled(w),
+        Err(Caught::Panic(m)) => s.violation(&format!("{} IntoIter next/next_back sequence", ty), "panic", json!({"input": input(), "panic": m})),
+    }
+}
+macro_rules! iter_ty { ($s:expr, $V:ident, $name:literal, $N:expr, $kind:ident, [$($i:tt)+]) => {{
+    #[inline(never)]
+    fn run(s: &Section) {
+        const N: usize = $N;
+        let ta = vars(0, N);
+        let a = <$V<Term>>::mk(&ta);
+        // positional constructor
+        lanes_eq(s, $name, concat!($name, " new"), catch(|| <$V<Term>>::new($(ta[$i]),+).de()), &ta);
+        // mutable iteration writes through in lane order
+        let w = |t: Term, i: usize| Term::bin("w", t, Term::cst(i as i64));
+        lanes_eq(s, $name, concat!($name, " &mut V into_iter"), catch(|| { let mut m = a; for (i, e) in (&mut m).into_iter().enumerate() { *e = w(*e, i); } m.de() }), &(0..N).map(|i| w(ta[i], i)).collect::<Vec<_>>());
+        lanes_eq(s, $name, concat!($name, " iter_mut().rev()"), catch(|| { let mut m = a; for (i, e) in m.iter_mut().rev().enumerate() { *e = w(*e, i); } m.de() }), &(0..N).map(|i| w(ta[i], N - 1 - i)).collect::<Vec<_>>());
+        // consuming iterator from both ends
+        let mut pats: Vec<Vec<bool>> = Vec::new();
+        for k in 0..=N { pats.push((0..N).map(|i| i < k).collect()); pats.push((0..N).map(|i| i >= k).collect()); }
+        for period in [2usize, 3, 5] { for phase in 0..period { pats.push((0..N).map(|i| (i + phase) % period == 0).collect()); pats.push((0..N).map(|i| (i + phase) % period != 0).collect()); } }
+        if N <= (if s.thorough() { 16 } else { 8 }) { for m in 0u64..1u64.wrapping_shl(N as u32) { pats.push((0..N).map(|i| m >> i & 1 == 1).collect()); } }
+        // partial consumption (prefixes of the mixed patterns): the remaining length must still be right
+        let shorter: Vec<Vec<bool>> = pats.iter().filter(|p| p.len() > 2).take(2 * N + 8).map(|p| p[..p.len() / 2].to_vec()).collect();
+        pats.extend(shorter);
+        for p in &pats {
+            s.class($name);
+            iter_seq(s, $name, &ta, p, catch(|| {
+                // never dropped: a broken iterator must show up as a reported violation, not as a second panic inside Drop while unwinding (abort); Term is Copy, nothing leaks
+                let mut it = std::mem::ManuallyDrop::new(a.into_iter());
+                let (mut out, mut lens) = (Vec::new(), vec![it.len()]);
+                // a size_hint that disagrees with len() is recorded as the impossible length usize::MAX
+                for &front in p { out.push(if front { it.next() } else { it.next_back() }); lens.push(if it.size_hint() == (it.len(), Some(it.len())) { it.len() } else { usize::MAX }); }
+                let tail = if p.len() == N { (it.next(), it.next_back(), it.len()) } else { (None, None, 0) };
+                (out, lens, tail)
+            }));
+        }
+        if s.wants_sample() { let mut it = a.into_iter(); let f = it.next(); let b = it.next_back(); s.sample(json!({"type": $name, "lanes": jd(&ta), "next": jd(&f), "then next_back": jd(&b), "len after": it.len()})); }
+    }
+    run($s);
+}} }
+
+// ------------------------------------------------------------------------------------------------
+// 10. call sequences on the in-place twins, closure call counts
+// ------------------------------------------------------------------------------------------------
+macro_rules! seq_ty { ($s:expr, $V:ident, $name:literal, $N:expr, $kind:ident, [$($i:tt)+]) => {{
+    #[inline(never)]
+    fn run(s: &Section) {
+        const N: usize = $N;
+        let (ta, tb, tc, s1, s2) = (vars(0, N), vars(100, N), vars(200, N), Term::var(998), Term::var(999));
+        let ks: Vec<u32> = (0..N as u32).map(|i| 1000 + 7 * i).collect();
+        let (a, b, c, k) = (<$V<Term>>::mk(&ta), <$V<Term>>::mk(&tb), <$V<Term>>::mk(&tc), <$V<u32>>::mk(&ks));
+        let bin = Term::bin;
+        // every compound assignment acts on the state left by the previous one
+        lanes_eq(s, $name, concat!($name, " sequence += V; *= T; -= V; <<= T"), catch(|| { let mut m = a; m += b; m *= s1; m -= c; m <<= s2; m.de() }),
+            &(0..N).map(|i| bin("shl", bin("sub", bin("mul", bin("add", ta[i], tb[i]), s1), tc[i]), s2)).collect::<Vec<_>>());
+        lanes_eq(s, $name, concat!($name, " sequence ^= V; |= T; &= V; %= T; /= V; >>= V"), catch(|| { let mut m = a; m ^= b; m |= s1; m &= c; m %= s2; m /= b; m >>= c; m.de() }),
+            &(0..N).map(|i| bin("shr", bin("div", bin("rem", bin("and", bin("or", bin("xor", ta[i], tb[i]), s1), tc[i]), s2), tb[i]), tc[i])).collect::<Vec<_>>());
+        // in-place and by-value operators interleaved, the vector used as its own right-hand side
+        lanes_eq(s, $name, concat!($name, " sequence += V; r = m * V; -= r; += m"), catch(|| { let mut m = a; m += b; let r = m * c; m -= r; let m2 = m; m += m2; m.de() }),
+            &(0..N).map(|i| { let ab = bin("add", ta[i], tb[i]); let d = bin("sub", ab, bin("mul", ab, tc[i])); bin("add", d, d) }).collect::<Vec<_>>());
+        // apply family on the state left by the previous apply
+        let g = |x: Term| Term::un("g", x);
+        let h = |x: Term, n: u32| Term::bin("h", x, Term::cst(n as i64));
+        let h3 = |x: Term, n: u32, y: Term| Term::tri("h3", x, Term::cst(n as i64), y);
+        lanes_eq(s, $name, concat!($name, " sequence apply; apply2; apply3; apply"), catch(|| { let mut m = a; m.apply(g); m.apply2(k, h); m.apply3(k, b, h3); m.apply(g); m.de() }),
+            &(0..N).map(|i| g(h3(h(g(ta[i]), ks[i]), ks[i], tb[i]))).collect::<Vec<_>>());
+        // the closure is called exactly once per element
+        let counts = catch(|| {
+            let mut n = [0usize; 6];
+            let _ = a.map(|x| { n[0] += 1; x }); let _ = a.map2(k, |x, _| { n[1] += 1; x }); let _ = a.map3(k, b, |x, _, _| { n[2] += 1; x });
+            let mut m = a; m.apply(|x| { n[3] += 1; x }); m.apply2(k, |x, _| { n[4] += 1; x }); m.apply3(k, b, |x, _, _| { n[5] += 1; x });
+            n.to_vec()
+        });
+        lanes_eq(s, $name, concat!($name, " closure call counts of map map2 map3 apply apply2 apply3"), counts, &vec![N; 6]);
+        if s.wants_sample() { s.sample(json!({"type": $name, "m = a; m += b; m *= s; m -= c; m <<= t  (lane 0)": jd(&{ let mut m = a; m += b; m *= s1; m -= c; m <<= s2; m.de()[0] })})); }
+    }
+    run($s);
+}} }
+
+// ------------------------------------------------------------------------------------------------
+// 11. float functions on special values, rounding ties and f32 lanes; sign predicates on more element types
+// ------------------------------------------------------------------------------------------------
+trait Fl: Prim {
+    /// 0 sqrt, 1 1/sqrt, 2 1/x, 3 ceil, 4 floor, 5 round (half away from zero)
+    fn fun(self, k: usize) -> Self;
+    fn specials() -> Vec<Self>;
+    fn close(got: Self, want: Self) -> bool;
+    fn finite_nonzero(self) -> bool;
+}
+macro_rules! fl_impl { ($P:ident, $close:ident, $below_half:expr, $big_odd:expr, $tiny:expr) => {
+    impl Fl for $P {
+        fn fun(self, k: usize) -> Self { match k { 0 => self.sqrt(), 1 => 1.0 / self.sqrt(), 2 => 1.0 / self, 3 => self.ceil(), 4 => self.floor(), _ => self.round() } }
+        fn specials() -> Vec<Self> { vec![0.0, -0.0, 0.5, -0.5, 1.5, -1.5, 2.5, -2.5, $below_half, -$below_half, -4.0, 4.0, -7.0, 2.0, 0.1, -0.1, $big_odd, -$big_odd, 1e30, <$P>::MAX, <$P>::MIN, <$P>::MIN_POSITIVE, $tiny, -$tiny, <$P>::INFINITY, <$P>::NEG_INFINITY, <$P>::NAN] }
+        fn close(got: Self, want: Self) -> bool { vx::fl::$close(got, want as f64, want as f64) }
+        fn finite_nonzero(self) -> bool { self.is_finite() && self != 0.0 }
+    }
+} }
+fl_impl!(f64, close64, 0.49999999999999994, 4503599627370497.0, 5e-324);
+fl_impl!(f32, close32, 0.49999997, 8388609.0, 1e-45);
+#[inline(never)]
+fn float_specials<F: Fl>(s: &Section, ty: &str, n: usize, f: &dyn Fn(&[F]) -> [Vec<F>; 6]) {
+    let ks: &[usize] = if s.thorough() { &[1, 2, 3, 5, 7, 11, 13] } else { &[1, 7] };
+    let mut count = 0u64;
+    for (pi, x) in lane_patterns(&F::specials(), F::small(1), n, ks).iter().enumerate() {
+        let got = match catch(|| f(x)) { Ok(g) => g, Err(e) => { s.eval(true); s.violation(&format!("{} float functions<{}>", ty, F::NAME), "panic", json!({"lanes": jd(x), "error": jd(&e)})); continue } };
+        for k in 0..6 {
+            count += 1;
+            for i in 0..n {
+                let want = x[i].fun(k);
+                // one correctly rounded operation: same bits (any NaN equals any NaN); rsqrt (two roundings) on finite non-zero results: derived bound
+                let ok = got[k].len() == n && (got[k][i].same(want) || (k == 1 && want.finite_nonzero() && F::close(got[k][i], want)));
+                if !ok { s.violation_w(&format!("{} {}<{}>", ty, FUN6[k], F::NAME), "wrong-lane", json!({"lanes": jd(x), "lane": i, "got": jd(&got[k].get(i)), "want": jd(&want)}), pi as u64); break; }
+            }
+        }
+    }
+    s.evals(count, count); s.class_n(ty, count); s.class_n(F::NAME, count);
+}
+/// is_any_negative / are_all_positive: one deviating lane at every position over positive / negative / zero backgrounds
+#[inline(never)]
+fn sign_preds<P: Prim + PartialOrd>(s: &Section, ty: &str, n: usize, neg: &[P], pos: &[P], with_zero: bool, f: &dyn Fn(&[P]) -> (bool, bool)) {
+    let zero = P::small(0);
+    let mut vs: Vec<Vec<P>> = vec![(0..n).map(|i| pos[i % pos.len()]).collect(), (0..n).map(|i| neg[i % neg.len()]).collect()];
+    let mut bgs: Vec<Vec<P>> = vec![vs[0].clone(), vs[1].clone()];
+    if with_zero { vs.push(vec![zero; n]); bgs.push(vec![zero; n]); }
+    let mut devs: Vec<P> = neg.iter().chain(pos.iter()).copied().collect(); if with_zero { devs.push(zero); }
+    for bg in &bgs { for j in 0..n { for &d in &devs { let mut v = bg.clone(); v[j] = d; vs.push(v); } } }
+    if s.thorough() { for bg in &bgs { for j in 0..n { for k in j + 1..n { for (&d, &e) in devs.iter().zip(devs.iter().rev()) { let mut v = bg.clone(); v[j] = d; v[k] = e; vs.push(v); } } } } }
+    let mut count = 0u64;
+    for v in &vs {
+        let want = (v.iter().any(|&x| x < zero), v.iter().all(|&x| x > zero));
+        let mixed = v.iter().any(|&x| x < zero) && v.iter().any(|&x| !(x < zero));
+        s.evals(2, if mixed { 2 } else { 0 }); count += 2;
+        match catch(|| f(v)) {
+            Ok(g) => {
+                if g.0 != want.0 { s.violation(&format!("{} is_any_negative<{}>", ty, P::NAME), "wrong-value", json!({"lanes": jd(v), "got": g.0})); }
+                if g.1 != want.1 { s.violation(&format!("{} are_all_positive<{}>", ty, P::NAME), "wrong-value", json!({"lanes": jd(v), "got": g.1})); }
+            }
+            Err(e) => s.violation(&format!("{} sign predicates<{}>", ty, P::NAME), "panic", json!({"lanes": jd(v), "error": jd(&e)})),
+        }
+    }
+    s.class_n(ty, count); s.class_n(P::NAME, count);
+}
+macro_rules! float2_ty { ($s:expr, $V:ident, $name:literal, $N:expr, $kind:ident, [$($i:tt)+]) => {{
+    #[inline(never)]
+    fn run(s: &Section) {
+        float_specials::<f64>(s, $name, $N, &|x| { let v = <$V<f64>>::mk(x); [v.sqrt().de(), v.rsqrt().de(), v.recip().de(), v.ceil().de(), v.floor().de(), v.round().de()] });
+        float_specials::<f32>(s, $name, $N, &|x| { let v = <$V<f32>>::mk(x); [v.sqrt().de(), v.rsqrt().de(), v.recip().de(), v.ceil().de(), v.floor().de(), v.round().de()] });
+        sign_preds::<i8>(s, $name, $N, &[-1, i8::MIN, -77], &[1, i8::MAX, 50], true, &|x| { let v = <$V<i8>>::mk(x); (v.is_any_negative(), v.are_all_positive()) });
+        sign_preds::<i64>(s, $name, $N, &[-1, i64::MIN, -5_000_000_000], &[1, i64::MAX, 7], true, &|x| { let v = <$V<i64>>::mk(x); (v.is_any_negative(), v.are_all_positive()) });
+        sign_preds::<f64>(s, $name, $N, &[-1.0, f64::NEG_INFINITY, -f64::MIN_POSITIVE, -5e-324], &[1.0, f64::INFINITY, f64::MIN_POSITIVE, 5e-324], false, &|x| { let v = <$V<f64>>::mk(x); (v.is_any_negative(), v.are_all_positive()) });
+        sign_preds::<f32>(s, $name, $N, &[-1.0, f32::NEG_INFINITY, -f32::MIN_POSITIVE, -1e-45], &[1.0, f32::INFINITY, f32::MIN_POSITIVE, 1e-45], false, &|x| { let v = <$V<f32>>::mk(x); (v.is_any_negative(), v.are_all_positive()) });
+        if s.wants_sample() { let x: Vec<f64> = (0..$N).map(|i| [-2.5, -0.5, 0.5, 1.5, -4.0][i % 5]).collect(); s.sample(json!({"type": $name, "lanes": x, "round": <$V<f64>>::mk(&x).round().de(), "ceil": bitsv(&<$V<f64>>::mk(&x).ceil().de()), "sqrt": bitsv(&<$V<f64>>::mk(&x).sqrt().de())})); }
+    }
+    run($s);
+}} }
+
+// ------------------------------------------------------------------------------------------------
+// 12. min/max family with the scalar as FIRST operand and with two scalars
+// ------------------------------------------------------------------------------------------------
+const SELS2: [&str; 8] = ["min(T,V)", "max(T,V)", "partial_min(T,V)", "partial_max(T,V)", "min(T,T)", "max(T,T)", "partial_min(T,T)", "partial_max(T,T)"];
+#[inline(never)]
+fn order_forms_i32(s: &Section, ty: &str, n: usize, sel: &dyn Fn(i32, &[i32], i32) -> [Vec<i32>; 8]) {
+    let alpha: Vec<i32> = if s.thorough() { vec![i32::MIN, i32::MIN + 1, -2, -1, 0, 1, 3, i32::MAX - 1, i32::MAX] } else { vec![i32::MIN, -2, 0, 3, i32::MAX] };
+    let ks: &[usize] = if s.thorough() { &[1, 2, 3, 5, 7] } else { &[1, 2] };
+    let mut count = 0u64;
+    for (pi, b) in lane_patterns(&alpha, 0, n, ks).iter().enumerate() { for &t in &alpha {
+        let u = b[0];
+        let rels = b.iter().map(|x| t.cmp(x)).collect::<std::collections::BTreeSet<_>>().len();
+        let mn: Vec<i32> = b.iter().map(|&x| if t < x { t } else { x }).collect();
+        let mx: Vec<i32> = b.iter().map(|&x| if t > x { t } else { x }).collect();
+        let (mn2, mx2) = (vec![if t < u { t } else { u }; n], vec![if t > u { t } else { u }; n]);
+        let want = [&mn, &mx, &mn, &mx, &mn2, &mx2, &mn2, &mx2];
+        match catch(|| sel(t, b, u)) {
+            Ok(g) => for f in 0..8 { count += 1; s.eval(if f < 4 { rels > 1 } else { t != u }); if &g[f] != want[f] {
+                s.violation_w(&format!("{} {}<i32>", ty, SELS2[f]), "wrong-lane", json!({"first scalar": t, "vector (forms T,V)": b, "second scalar (forms T,T)": u, "got": g[f], "want": want[f]}), pi as u64); } },
+            Err(e) => s.violation(&format!("{} min/max family, scalar first<i32>", ty), "panic", json!({"scalar": t, "vector": b, "error": jd(&e)})),
+        }
+    } }
+    s.class_n(ty, count);
+}
+macro_rules! order2_ty { ($s:expr, $V:ident, $name:literal, $N:expr, $kind:ident, [$($i:tt)+]) => {{
+    #[inline(never)]
+    fn run(s: &Section) {
+        type VI = $V<i32>;
+        order_forms_i32(s, $name, $N, &|t, b, u| { let b = VI::mk(b); [VI::min(t, b).de(), VI::max(t, b).de(), VI::partial_min(t, b).de(), VI::partial_max(t, b).de(),
+            VI::min(t, u).de(), VI::max(t, u).de(), VI::partial_min(t, u).de(), VI::partial_max(t, u).de()] });
+        if s.wants_sample() { let b: Vec<i32> = (0..$N).map(|i| [-2, 0, 3][i % 3]).collect(); s.sample(json!({"type": $name, "min(0, b)": VI::min(0, VI::mk(&b)).de(), "b": b})); }
+    }
+    run($s);
+}} }
+
+// ------------------------------------------------------------------------------------------------
+// 13. operators on concrete machine lanes (i8: all defined operand pairs; f64: special values; bool Not)
+// ------------------------------------------------------------------------------------------------
+const OPS10: [&str; 10] = ["Add", "Sub", "Mul", "Div", "Rem", "Shl", "Shr", "BitAnd", "BitOr", "BitXor"];
+const FORMS5: [&str; 5] = ["V∘V", "&V∘&V", "V∘=V", "V∘T", "V∘=T"];
+fn ref_i8(op: usize, x: i8, y: i8) -> Option<i8> {
+    match op { 0 => x.checked_add(y), 1 => x.checked_sub(y), 2 => x.checked_mul(y), 3 => x.checked_div(y), 4 => x.checked_rem(y),
+        5 => if (0..8).contains(&y) { Some(((x as u8) << y) as i8) } else { None }, 6 => if (0..8).contains(&y) { Some(x >> y) } else { None },
+        7 => Some(x & y), 8 => Some(x | y), _ => Some(x ^ y) }
+}
+fn ref_f64(op: usize, x: f64, y: f64) -> f64 { match op { 0 => x + y, 1 => x - y, 2 => x * y, 3 => x / y, _ => x % y } }
+type ConcFn<'a, P> = &'a (dyn Fn(usize, usize, &[P], &[P], P) -> Vec<P> + Sync);
+/// `pairs_of(op)`: the operand pairs on which the scalar operation is defined. Vector forms: the pairs are dealt over the lanes
+/// (vector j, lane i holds pair (j*n + i) mod m, and a second deal with the pair list reversed so that every pair meets other lanes);
+/// scalar forms: for every right operand y, the left operands defined with y are dealt over the lanes.
+#[inline(never)]
+fn concrete_ops<P: Prim>(s: &Section, ty: &str, n: usize, nops: usize, alpha: &[P], reff: &(dyn Fn(usize, P, P) -> Option<P> + Sync), real: ConcFn<P>) {
+    use rayon::prelude::*;
+    let (evals, nontriv): (u64, u64) = (0..nops).into_par_iter().map(|op| {
+        let (mut ev, mut nt) = (0u64, 0u64);
+        let mut run = |form: usize, a: &[P], b: &[P], t: P| {
+            let want: Vec<P> = (0..n).map(|i| reff(op, a[i], if form < 3 { b[i] } else { t }).unwrap()).collect();
+            ev += 1; if want.iter().any(|w| !w.same(want[0])) { nt += 1; }
+            let site = || format!("{} {} {} on {} lanes", ty, OPS10[op], FORMS5[form], P::NAME);
+            match catch(|| real(op, form, a, b, t)) {
+                Ok(g) => if g.len() != n || (0..n).any(|i| !g[i].same(want[i])) {
+                    let lane = (0..n).find(|&i| g.get(i).map_or(true, |x| !x.same(want[i]))).unwrap_or(0);
+                    s.violation_w(&site(), "wrong-lane", json!({"a": jd(&a), "b": jd(&b), "scalar": jd(&t), "lane": lane, "got": jd(&g), "want": jd(&want)}), a[lane].mag().saturating_add(b[lane].mag())); },
+                Err(e) => s.violation(&site(), "panic", json!({"a": jd(&a), "b": jd(&b), "scalar": jd(&t), "error": jd(&e)})),
+            }
+        };
+        let mut pairs: Vec<(P, P)> = alpha.iter().flat_map(|&x| alpha.iter().map(move |&y| (x, y))).filter(|&(x, y)| reff(op, x, y).is_some()).collect();
+        for pass in 0..2 {
+            let m = pairs.len();
+            for c in (0..m).step_by(n) {
+                let a: Vec<P> = (0..n).map(|i| pairs[(c + i) % m].0).collect();
+                let b: Vec<P> = (0..n).map(|i| pairs[(c + i) % m].1).collect();
+                for form in 0..3 { run(form, &a, &b, b[0]); }
+            }
+            if pass == 0 { pairs.reverse(); let r = pairs.len() / 3; pairs.rotate_left(r); }
+        }
+        for &y in alpha {
+            let xs: Vec<P> = alpha.iter().copied().filter(|&x| reff(op, x, y).is_some()).collect();
+            if xs.is_empty() { continue; }
+            for c in (0..xs.len()).step_by(n) {
+                let a: Vec<P> = (0..n).map(|i| xs[(c + i) % xs.len()]).collect();
+                let b = vec![y; n];
+                for form in 3..5 { run(form, &a, &b, y); }
+            }
+        }
+        (ev, nt)
+    }).reduce(|| (0, 0), |a, b| (a.0 + b.0, a.1 + b.1));
+    s.evals(evals, nontriv); s.class_n(ty, evals); s.class_n(P::NAME, evals);
+}
+/// Neg / Not: every value of the alphabet on which the scalar operation is defined, dealt over the lanes
+#[inline(never)]
+fn concrete_unary<P: Copy + Debug + PartialEq>(s: &Section, ty: &str, n: usize, site: &str, vals: &[P], reff: &dyn Fn(P) -> P, real: &dyn Fn(&[P]) -> Vec<P>) {
+    let mut count = 0u64;
+    for pass in 0..2usize { for c in (0..vals.len()).step_by(n) {
+        let a: Vec<P> = (0..n).map(|i| vals[(c + i * (1 + 2 * pass)) % vals.len()]).collect();
+        let want: Vec<P> = a.iter().map(|&x| reff(x)).collect();
+        s.eval(true); count += 1;
+        match catch(|| real(&a)) {
+            Ok(g) => if g != want { s.violation_w(site, "wrong-lane", json!({"lanes": jd(&a), "got": jd(&g), "want": jd(&want)}), c as u64); },
+            Err(e) => s.violation(site, "panic", json!({"lanes": jd(&a), "error": jd(&e)})),
+        }
+    } }
+    s.class_n(ty, count);
+}
+macro_rules! concrete_ty { ($s:expr, $V:ident, $name:literal, $N:expr, $kind:ident, [$($i:tt)+]) => {{
+    #[inline(never)]
+    fn run(s: &Section) {
+        macro_rules! forms { ($op:tt, $opa:tt, $a:expr, $b:expr, $t:expr, $form:expr) => { match $form {
+            0 => ($a $op $b).de(), 1 => (&$a $op &$b).de(), 2 => { let mut m = $a; m $opa $b; m.de() },
+            3 => ($a $op $t).de(), _ => { let mut m = $a; m $opa $t; m.de() } } } }
+        let alpha_i8: Vec<i8> = if s.thorough() { (i8::MIN..=i8::MAX).collect() } else { vec![-128, -127, -64, -3, -2, -1, 0, 1, 2, 3, 5, 7, 8, 63, 64, 126, 127] };
+        concrete_ops::<i8>(s, $name, $N, 10, &alpha_i8, &ref_i8, &|op, form, a, b, t| { let (a, b) = (<$V<i8>>::mk(a), <$V<i8>>::mk(b)); match op {
+            0 => forms!(+, +=, a, b, t, form), 1 => forms!(-, -=, a, b, t, form), 2 => forms!(*, *=, a, b, t, form), 3 => forms!(/, /=, a, b, t, form), 4 => forms!(%, %=, a, b, t, form),
+            5 => forms!(<<, <<=, a, b, t, form), 6 => forms!(>>, >>=, a, b, t, form), 7 => forms!(&, &=, a, b, t, form), 8 => forms!(|, |=, a, b, t, form), _ => forms!(^, ^=, a, b, t, form) } });
+        concrete_ops::<f64>(s, $name, $N, 5, &<f64 as Prim>::alphabet(false), &|op, x, y| Some(ref_f64(op, x, y)), &|op, form, a, b, t| { let (a, b) = (<$V<f64>>::mk(a), <$V<f64>>::mk(b)); match op {
+            0 => forms!(+, +=, a, b, t, form), 1 => forms!(-, -=, a, b, t, form), 2 => forms!(*, *=, a, b, t, form), 3 => forms!(/, /=, a, b, t, form), _ => forms!(%, %=, a, b, t, form) } });
+        let all_i8: Vec<i8> = (i8::MIN..=i8::MAX).collect();
+        concrete_unary::<i8>(s, $name, $N, concat!($name, " Neg on i8 lanes"), &all_i8[1..], &|x| -x, &|l| (-<$V<i8>>::mk(l)).de());
+        concrete_unary::<i8>(s, $name, $N, concat!($name, " Not on i8 lanes"), &all_i8, &|x| !x, &|l| (!<$V<i8>>::mk(l)).de());
+        concrete_unary::<bool>(s, $name, $N, concat!($name, " Not on bool lanes"), &[true, false, false, true, true, true, false], &|x| !x, &|l| (!<$V<bool>>::mk(l)).de());
+        concrete_unary::<i64>(s, $name, $N, concat!($name, " Neg on i64 lanes"), &[0, 1, -1, i64::MAX, i64::MIN + 1, 1 << 40, -(1 << 40), 7, -9], &|x| -x, &|l| (-<$V<i64>>::mk(l)).de());
+        if s.wants_sample() { let a: Vec<i8> = (0..$N).map(|i| [-128i8, 127, -1, 64][i % 4]).collect(); let b: Vec<i8> = (0..$N).map(|i| [-1i8, 127, -128, 2][i % 4]).collect();
+            s.sample(json!({"type": $name, "a": a, "b": b, "a ^ b": (<$V<i8>>::mk(&a) ^ <$V<i8>>::mk(&b)).de(), "a >> 3": (<$V<i8>>::mk(&a) >> 3i8).de()})); }
+    }
+    run($s);
+}} }
+
 fn main() {
     let rep = Report::start("C02", "exploration");
 
@@ -724,14 +1149,37 @@ fn main() {
         "13 types x {Add, Mul} x {i8 u8 i16 u16 i32 u32 i64 u64 f32 f64}: every pair (scalar s, lane value x) of the alphabet whose exact result fits the type (8-bit: all 256x256 pairs; wider ints: 12-15 boundary values MIN..MAX, thorough: plus all +-2^k, 2^k+-1; floats: 16 values incl. signed zeros, infinities, NaN), x placed in the lanes i = phase mod 3 for phase 0..2, alone at every single lane, and in all lanes, with small fill values (-1/0/1 pattern, replaced by the neutral element where it would overflow) elsewhere; every lane must equal s∘lane_i computed on scalars (floats: same bits or both NaN); overflowing pairs are skipped (panics are outside the property); non-trivial: s∘x differs from x",
         true, false, |s| { s.require_classes(&ALL_TYPES); s.require_classes(&["i8", "u8", "i16", "u16", "i32", "u32", "i64", "u64", "f32", "f64"]); for_all_vecs!(scalar_left_ty, s); });
     rep.section("reduce_and / reduce_or on bool, primitive and Wrapping lanes (non-generic impls)",
-        "13 types; bool: all 2^N vectors for N <= 16, every vector within <= 2 deviations of all-true / all-false for N = 32, 64; i8..u64, Wrapping<i8..u64>, f32, f64 (zero, -0.0 = false; everything else incl. NaN = true): all-zero, all-nonzero, one non-zero lane at every position, one zero lane at every position, for every (zero, non-zero) value pair of the alphabet, plus mixed non-zero values; both reductions compared with all()/any(); one evaluation per (vector, function); non-trivial: vector has both true and false lanes",
+        "13 types; bool: all 2^N vectors for N <= 16, every vector within <= 2 deviations of all-true / all-false for N = 32, 64; i8..u64, Wrapping<i8..u64>, f32, f64 (zero, -0.0 = false; everything else incl. NaN = true): all-zero, all-nonzero, one non-zero lane at every position, one zero lane at every position, for every (zero, non-zero) value pair of the alphabet, plus mixed non-zero values (thorough: plus two deviating lanes at every pair of positions); both reductions compared with all()/any(); one evaluation per (vector, function); non-trivial: vector has both true and false lanes",
         true, false, |s| { s.require_classes(&ALL_TYPES); s.require_classes(&["Wrapping u64", "f32", "i8"]); for_all_vecs!(boolred_ty, s); });
     rep.section("min/max/partial_min/partial_max, 12 comparison masks, reduce_min/max (concrete ordered lanes)",
-        "13 types; i32: lane i holds the pair P[(r + i*k) mod |P|], P = all ordered pairs over {-2,0,3} (thorough: {MIN,-2,0,3,MAX}), every rotation r and strides k in {1,2,5}, so every lane meets every relation <,=,> with varying neighbours: min max partial_min partial_max with (V,V) and (V,scalar) operands and the 24 masks cmp*/partial_cmp* and their by-value *_simd twins vs the scalar relation per lane; f64: pairs over {-1,-0,+0,1,inf,NaN}: partial_min/partial_max (asserted: result is bitwise one of the two operands; equals the textbook min/max when neither is NaN, ties open) and the 6 partial masks and their *_simd twins (IEEE relations); reduce_min/max/partial_min/partial_max on every rotation of 0..N and of its reverse, all-equal, and +1/-1 at every single position (f64 copies incl. signed zeros; with a NaN lane only 'is one of the elements' is asserted); one evaluation per (vector pair, function); non-trivial: lanes do not all carry the same relation / min != max / no NaN",
+        "13 types; i32: lane i holds the pair P[(r + i*k) mod |P|], P = all ordered pairs over {-2,0,3} (thorough: {MIN,-2,0,3,MAX}), every rotation r and strides k in {1,2,5} (thorough {1,2,3,5,7,11}; f64: {1,5,7}, thorough {1,2,3,5,7,11,13}), so every lane meets every relation <,=,> with varying neighbours: min max partial_min partial_max with (V,V) and (V,scalar) operands and the 24 masks cmp*/partial_cmp* and their by-value *_simd twins vs the scalar relation per lane; f64: pairs over {-1,-0,+0,1,inf,NaN}: partial_min/partial_max (asserted: result is bitwise one of the two operands; equals the textbook min/max when neither is NaN, ties open) and the 6 partial masks and their *_simd twins (IEEE relations); reduce_min/max/partial_min/partial_max on every rotation of 0..N and of its reverse, all-equal, and +1/-1 at every single position (f64 copies incl. signed zeros; with a NaN lane only 'is one of the elements' is asserted); one evaluation per (vector pair, function); non-trivial: lanes do not all carry the same relation / min != max / no NaN",
         true, false, |s| { s.require_classes(&ALL_TYPES); for_all_vecs!(order_ty, s); });
     rep.section("sqrt rsqrt recip ceil floor round on f64 lanes, is_any_negative / are_all_positive on i32",
         "13 types; three lane-distinct f64 generators (perfect squares, fractional positives, signed values with .0/.125 offsets incl. negative) in every rotation: each lane must carry the scalar function of that lane (bit-identical; rsqrt = 1/sqrt within the derived 256-eps bound); sign predicates on all-positive, all-negative, all-zero and one deviating lane (negative / zero / positive) at every position; non-trivial: all float cases; predicates: lanes of mixed sign",
         true, false, |s| { s.require_classes(&ALL_TYPES); for_all_vecs!(float_ty, s); });
+
+    // ---- sections added by the audit round -------------------------------------------------------
+    rep.section("casts: as_ and numcast (concrete lanes)",
+        "13 types x {f64->i32, i32->u8, i64->f32}: alphabets with fractional, negative, out-of-range, boundary, NaN and infinite values; lane i holds alphabet[(r + i*k) mod len] for every rotation r and strides k in {1,3} (thorough {1,2,3,5,7,11}), every alphabet value alone at every single lane over a convertible fill, and the same rotations over the convertible values only; as_: lane i must be the scalar `as` cast of lane i; numcast: Some(lanes converted by the scalar NumCast) iff every lane converts, otherwise None; non-trivial: as_: lanes do not all convert to the same value, numcast: convertible and non-convertible lanes mixed",
+        true, false, |s| { s.require_classes(&ALL_TYPES); s.require_classes(&["numcast-some", "numcast-none", "numcast-none-single-lane"]); for_all_vecs!(cast_ty, s); });
+    rep.section("bool reductions incl. deprecated reduce_ne, deeper deviation sets",
+        "13 types; reduce_and, reduce_or and the deprecated reduce_ne (textbook: the chain ((v0 != v1) != v2) != ..., i.e. left fold of !=) on all 2^N bool vectors for N <= 16 and on every vector within <= 2 (thorough: <= 4) deviations of all-true / all-false for N = 32, 64; one evaluation per (vector, function); non-trivial: vector has both true and false lanes",
+        true, false, |s| { s.require_classes(&ALL_TYPES); for_all_vecs!(boolred3_ty, s); });
+    rep.section("new, consuming iterator driven from both ends, mutable iteration (free terms)",
+        "13 types: positional constructor new; (&mut V).into_iter() and iter_mut().rev() write through in lane order; IntoIter driven by next / next_back patterns: k fronts then backs and k backs then fronts for every k in 0..=N, periodic patterns of period 2, 3, 5 in every phase and complemented, all 2^N patterns for N <= 8 (thorough: N <= 16), plus half-length prefixes (partial consumption); yielded elements compared with a deque model over the lanes, ExactSizeIterator::len() (and size_hint() = (len, Some(len))) compared after every step, and nothing may be yielded after N elements; one evaluation per pattern; non-trivial: pattern uses both ends",
+        true, false, |s| { s.require_classes(&ALL_TYPES); for_all_vecs!(iter_ty, s); });
+    rep.section("call sequences on in-place twins, closure call counts (free terms)",
+        "13 types: three sequences of compound assignments (all 10 operators, vector and scalar right-hand sides, interleaved with a by-value operator and with the vector as its own right-hand side) and apply; apply2; apply3; apply, each acting on the state left by the previous call: lane i must be the nested scalar term of lane i; map map2 map3 apply apply2 apply3 call their closure exactly N times; one evaluation per (type, sequence); non-trivial: all",
+        true, true, |s| { s.require_classes(&ALL_TYPES); for_all_vecs!(seq_ty, s); });
+    rep.section("float functions on special values, rounding ties, f32 lanes; sign predicates on i8 i64 f32 f64",
+        "13 types x {f64, f32}: sqrt rsqrt recip ceil floor round on 27 special values (signed zeros, +-0.5 +-1.5 +-2.5 ties, the largest float below 0.5, negative arguments, 2^52+1 resp. 2^23+1, huge, MAX, MIN, MIN_POSITIVE, subnormal, infinities, NaN) laid out in every rotation with strides {1,7} (thorough {1,2,3,5,7,11,13}) and alone at every single lane: each lane must carry the scalar function of that lane (same bits, any NaN equals any NaN; rsqrt on finite non-zero results within the derived 256-eps bound); is_any_negative / are_all_positive on i8, i64 (incl. MIN, MAX, zero) and on non-zero, non-NaN f32 / f64 (incl. infinities and subnormals; the sign of a zero is left open): all-positive, all-negative, all-zero backgrounds with one deviating lane at every position (thorough: two); non-trivial: all float cases; predicates: negative and non-negative lanes mixed",
+        true, false, |s| { s.require_classes(&ALL_TYPES); s.require_classes(&["f32", "f64", "i8", "i64"]); for_all_vecs!(float2_ty, s); });
+    rep.section("min/max/partial_min/partial_max with the scalar first and with two scalars (concrete i32 lanes)",
+        "13 types x {min, max, partial_min, partial_max} x {(scalar, vector), (scalar, scalar)}: vectors = every rotation of {MIN,-2,0,3,MAX} (thorough 9 values) with strides {1,2} (thorough {1,2,3,5,7}) and every value alone at every single lane, scalar = every alphabet value; lane i must be the scalar min/max of (t, b_i) resp. of the two scalars; non-trivial: lanes do not all carry the same relation to the scalar / the two scalars differ",
+        true, false, |s| { s.require_classes(&ALL_TYPES); for_all_vecs!(order2_ty, s); });
+    rep.section("operators on concrete machine lanes: i8 operand pairs, f64 special values, Neg / Not on i8 i64 bool",
+        "13 types; i8: 10 binary operators x 5 forms (V∘V, &V∘&V, V∘=V, V∘T, V∘=T) on every operand pair of the alphabet (17 boundary values, thorough: all 256 x 256 pairs) on which the scalar operation is defined (checked_*; shifts 0..7; overflowing, zero-divisor and out-of-range-shift pairs panic and are outside the property), dealt over the lanes twice in different orders; scalar forms: for every right operand all defined left operands dealt over the lanes; f64: Add Sub Mul Div Rem x the same 5 forms on all pairs of 16 special values (same bits, any NaN equals any NaN); Neg on all i8 but MIN and on 9 i64 values, Not on all i8 and on bool lanes; every lane must equal the scalar operation on the operands' lanes; one evaluation per vector operation; non-trivial: lanes do not all carry the same result",
+        true, false, |s| { s.require_classes(&ALL_TYPES); s.require_classes(&["i8", "f64"]); for_all_vecs!(concrete_ty, s); });
 
     std::process::exit(rep.finish());
 }
